@@ -61,7 +61,7 @@ CLAUSES = {
     # calibrated on the thorough tier of the unchanged tree (every failure the finding produced there had this clause)
     ('F-02a', 'C02'): {1}, ('F-02b', 'C02'): {2}, ('F-02c', 'C02'): {2},
     ('F-02b', 'C04'): {32},
-    ('F-02b', 'C12'): {69},
+    ('F-02b', 'C12'): {69, 70},      # 70: the unblocked interrupted customer's restored start date reads as a fresh start while another interrupted one waits
     ('F-02b', 'C05'): {41},
     ('F-12a', 'C14'): {182}, ('F-12d', 'C14'): {182},   # the stranded customer's service end is the event left unexecuted          # the restarted blocked customer starts in a shift with zero servers          # a restarted blocked customer: service start after its (earlier) exit stamp
 }
